@@ -38,6 +38,9 @@ type NormalEstimator struct {
   sum_g []float64
   sum_m []float64
   sum_s []float64
+  // largest log-weight (relative to gamma_max) seen by each thread; the
+  // sums of that thread are relative to it
+  sum_r []float64
   gamma_max float64
 }
 
@@ -79,10 +82,12 @@ func (obj *NormalEstimator) Initialize(p ThreadPool) error {
   obj.sum_g = make([]float64, p.NumberOfThreads())
   obj.sum_m = make([]float64, p.NumberOfThreads())
   obj.sum_s = make([]float64, p.NumberOfThreads())
+  obj.sum_r = make([]float64, p.NumberOfThreads())
   for i := 0; i < p.NumberOfThreads(); i++ {
     obj.sum_g[i] = 0.0
     obj.sum_m[i] = 0.0
     obj.sum_s[i] = 0.0
+    obj.sum_r[i] = math.Inf(-1)
   }
   obj.gamma_max = 0.0
   return nil
@@ -90,14 +95,27 @@ func (obj *NormalEstimator) Initialize(p ThreadPool) error {
 
 func (obj *NormalEstimator) NewObservation(x, gamma ConstScalar, p ThreadPool) error {
   id := p.GetThreadId()
-  if gamma == nil {
+  // log-weight of this observation (no weight is weight one)
+  r := 0.0
+  if gamma != nil {
+    r = gamma.GetFloat64() - obj.gamma_max
+  }
+  if math.IsInf(r, -1) {
+    // weight zero
+    return nil
+  }
+  // the largest log-weight is not known in advance when observations
+  // arrive one by one: keep the sums relative to the largest one seen so far
+  if r > obj.sum_r[id] {
+    s := math.Exp(obj.sum_r[id] - r)
+    obj.sum_m[id] *= s
+    obj.sum_s[id] *= s
+    obj.sum_g[id] *= s
+    obj.sum_r[id]  = r
+  }
+  {
     x := x.GetFloat64()
-    obj.sum_m[id] += x
-    obj.sum_s[id] += x*x
-    obj.sum_g[id] += 1.0
-  } else {
-    x := x.GetFloat64()
-    g := math.Exp(gamma.GetFloat64() - obj.gamma_max)
+    g := math.Exp(r - obj.sum_r[id])
     obj.sum_m[id] += g*x
     obj.sum_s[id] += g*x*x
     obj.sum_g[id] += g
@@ -112,10 +130,20 @@ func (obj *NormalEstimator) updateEstimate() error {
   sum_g := 0.0
   sum_m := 0.0
   sum_s := 0.0
+  // bring the sums of all threads to a common scale
+  sum_r := math.Inf(-1)
+  for i := 0; i < len(obj.sum_r); i++ {
+    sum_r = math.Max(sum_r, obj.sum_r[i])
+  }
   for i := 0; i < len(obj.sum_m); i++ {
-    sum_m += obj.sum_m[i]
-    sum_s += obj.sum_s[i]
-    sum_g += obj.sum_g[i]
+    if math.IsInf(obj.sum_r[i], -1) {
+      // this thread has not seen any observation
+      continue
+    }
+    s := math.Exp(obj.sum_r[i] - sum_r)
+    sum_m += s*obj.sum_m[i]
+    sum_s += s*obj.sum_s[i]
+    sum_g += s*obj.sum_g[i]
   }
   s1 := sum_m/float64(sum_g)
   s2 := sum_s/float64(sum_g)
@@ -135,6 +163,7 @@ func (obj *NormalEstimator) updateEstimate() error {
   obj.sum_g = nil
   obj.sum_m = nil
   obj.sum_s = nil
+  obj.sum_r = nil
   return nil
 }
 
@@ -153,6 +182,10 @@ func (obj *NormalEstimator) Estimate(gamma ConstVector, p ThreadPool) error {
       if g := gamma.ConstAt(i).GetFloat64(); obj.gamma_max < g {
         obj.gamma_max = g
       }
+    }
+    // the largest log-weight is known: no rescaling required
+    for i := 0; i < len(obj.sum_r); i++ {
+      obj.sum_r[i] = 0.0
     }
   }
   // compute sigma
